@@ -2,6 +2,7 @@ package lib
 
 import (
 	"reflect"
+	"strings"
 
 	"github.com/openconfig/ygot/ygot"
 )
@@ -98,9 +99,26 @@ func (g *Gen) Mutate(root ygot.GoStruct, k int) []string {
 				old.SetMapIndex(k, fv.MapIndex(k))
 			}
 			fv.Set(reflect.Zero(fv.Type()))
+			// keys are compared by value: wrapper-union keys are pointers, and two map entries for
+			// one YANG key is not a tree any data source could have produced
+			keyText := func(e reflect.Value) string {
+				var parts []string
+				for _, kf := range g.C.Info(f.Elem).KeyFields() {
+					if kf != nil {
+						c, _ := CanonScalar(e.Elem().Field(kf.Idx), true)
+						parts = append(parts, c)
+					}
+				}
+				return strings.Join(parts, "\x00")
+			}
+			have := map[string]bool{}
+			for _, k := range old.MapKeys() {
+				have[keyText(old.MapIndex(k))] = true
+			}
 			if g.setField(sv, f, n.Path, len(n.Path)) && !fv.IsNil() {
 				for _, k := range fv.MapKeys() {
-					if !old.MapIndex(k).IsValid() {
+					if kt := keyText(fv.MapIndex(k)); !old.MapIndex(k).IsValid() && !have[kt] {
+						have[kt] = true
 						old.SetMapIndex(k, fv.MapIndex(k))
 					}
 				}
